@@ -2,6 +2,7 @@
 from __future__ import annotations
 
 import z3
+from .slicing import fold as _fold
 
 from .values import BytesV, Unsupported, is_term
 
@@ -88,7 +89,7 @@ class BytesMixin:
             if bv.size() > W - 1:
                 raise Unsupported("bytes wider than the bit-vector model")
             return z3.SignExt(W - bv.size(), bv) if signed else z3.ZeroExt(W - bv.size(), bv)
-        c = z3.simplify(bv)
+        c = _fold(bv)
         if z3.is_bv_value(c):
             return self.intval(c.as_signed_long() if signed else c.as_long())
         return z3.BV2Int(bv, is_signed=signed)
@@ -143,7 +144,7 @@ class BytesMixin:
                 a = max(lo - pos, 0)
                 if hi is None:
                     newlen = z3.If(ln >= self.intval(a), ln - self.intval(a), self.intval(0)) if a else ln
-                    out.append(("sym", arr, off + a, z3.simplify(newlen)))
+                    out.append(("sym", arr, off + a, _fold(newlen)))
                     return BytesV(out)
                 e = hi - pos
                 if not self.valid(st.pc, ln >= self.intval(e)):
